@@ -42,6 +42,7 @@ type Program struct {
 	SpecFns  map[string]*SpecFn // spec function name -> info
 	PredByFn map[*types.Func]*Pred
 	SynthSrc map[string]string // pkg short -> synthetic source (for reports)
+	inlinable map[string]bool
 	ifaceOnce sync.Once
 	ifaceOf   map[string][]string // implementation key -> interface-method contract keys
 	ModSets  map[*types.Func]map[string]bool
@@ -445,7 +446,7 @@ func synthesize(prog *Program) (map[string]string, map[string]*SpecFn, error) {
 		var pkg *packages.Package
 		if fi != nil {
 			pkg = fi.Pkg
-			sigParams, tparams, roles = signatureParams(fi.Pkg, fi.Obj, fi.Decl, con.ParamNames)
+			sigParams, tparams, roles = signatureParams(fi.Pkg, fi.Obj, fi.Decl, con.ParamNames, con.RecvAlias)
 		} else {
 			// interface method?
 			obj := prog.lookupInterfaceMethod(con)
@@ -457,7 +458,7 @@ func synthesize(prog *Program) (map[string]string, map[string]*SpecFn, error) {
 				continue
 			}
 			pkg = prog.Pkgs[con.Pkg]
-			sigParams, tparams, roles = signatureParams(pkg, obj, nil, con.ParamNames)
+			sigParams, tparams, roles = signatureParams(pkg, obj, nil, con.ParamNames, con.RecvAlias)
 		}
 		for _, c := range con.Requires {
 			if err := emit(con.Pkg, c, tparams, sigParams, roles, "bool"); err != nil {
@@ -636,7 +637,7 @@ func (prog *Program) lookupInterfaceMethod(con *Contract) *types.Func {
 
 // signatureParams renders receiver, parameters and results of a function as a
 // Go parameter list for the synthetic specification functions.
-func signatureParams(pkg *packages.Package, obj *types.Func, decl *ast.FuncDecl, names []string) (params, tparams string, roles []string) {
+func signatureParams(pkg *packages.Package, obj *types.Func, decl *ast.FuncDecl, names []string, recvAlias string) (params, tparams string, roles []string) {
 	sig := obj.Type().(*types.Signature)
 	q := qualifierFor(pkg.Types)
 	var parts []string
@@ -660,8 +661,11 @@ func signatureParams(pkg *packages.Package, obj *types.Func, decl *ast.FuncDecl,
 		} else {
 			add("this", r.Type(), "recv")
 		}
-		// the receiver is also visible under the uniform name `self`
+		// the receiver is also visible under the uniform name `self` and under the name the contract header gives it
 		add("self", r.Type(), "recv")
+		if recvAlias != "" {
+			add(recvAlias, r.Type(), "recv")
+		}
 		// type parameters of the receiver
 		if rtp := sig.RecvTypeParams(); rtp != nil && rtp.Len() > 0 {
 			var tps []string
@@ -681,15 +685,14 @@ func signatureParams(pkg *packages.Package, obj *types.Func, decl *ast.FuncDecl,
 	for i := 0; i < sig.Params().Len(); i++ {
 		p := sig.Params().At(i)
 		name := p.Name()
+		t := p.Type()
+		// the contract's own (positional) name first, then the code's name: a renamed parameter does not
+		// invalidate the contract
+		if i < len(names) && names[i] != "" && names[i] != "_" {
+			add(names[i], t, fmt.Sprintf("param%d", i))
+		}
 		if name == "" || name == "_" {
 			name = fmt.Sprintf("p%d", i)
-			if i < len(names) && names[i] != "" && names[i] != "_" {
-				name = names[i]
-			}
-		}
-		t := p.Type()
-		if sig.Variadic() && i == sig.Params().Len()-1 {
-			// variadic: []T
 		}
 		add(name, t, fmt.Sprintf("param%d", i))
 	}
